@@ -12,83 +12,6 @@ set_option linter.unusedSectionVars false
 namespace Rio.Filter
 open Rio.Html Rio.Html.Tokenizer
 
-/-! ### a text at the end of the input -/
-
-theorem readByte_eof {t : Tokenizer} (h : t.buf.size ≤ t.rawE) : t.readByte = ({ t with err := true }, 0) := by
-  unfold readByte
-  have : ¬ t.rawE < t.buf.size := by omega
-  simp [this]
-
-/-- the `'main` loop over bytes other than `<` up to the end of the buffer -/
-theorem mainLoop_eof : ∀ (tx : Bytes) (t : Tokenizer), (∀ b ∈ tx, b ≠ 60) →
-    (∀ i, i < tx.length → t.buf[t.rawE + i]? = tx[i]?) → t.buf.size = t.rawE + tx.length → t.err = false →
-    mainLoop t = finishText { t with rawE := t.rawE + tx.length, err := true }
-  | [], t, _, _, hsz, herr => by
-    simp only [List.length_nil, Nat.add_zero] at hsz ⊢
-    rw [mainLoop, readByte_eof (by omega)]
-    simp
-  | b :: tx, t, hne, hbuf, hsz, herr => by
-    have hb : t.buf[t.rawE]? = some b := by simpa using hbuf 0 (by simp)
-    rw [mainLoop_skip hb (hne b (by simp)) herr]
-    have h1 : ∀ i, i < tx.length → t.buf[t.rawE + 1 + i]? = tx[i]? := by
-      intro i hi
-      have := hbuf (i + 1) (by simp; omega)
-      simp only [List.getElem?_cons_succ] at this
-      rw [← this]; congr 1; omega
-    have := mainLoop_eof tx { t with rawE := t.rawE + 1 } (fun x hx => hne x (List.mem_cons_of_mem _ hx)) h1
-      (by simp only [List.length_cons] at hsz; show t.buf.size = t.rawE + 1 + tx.length; omega) herr
-    rw [this]
-    congr 2
-    simp only [List.length_cons]; omega
-
-/-- **a non-empty text free of `<` at the end of the input is one text token, nothing is left** -/
-theorem htmlTokenize?_text_eof {tx : Bytes} (hne : tx ≠ []) (h60 : ∀ b ∈ tx, b ≠ 60) :
-    htmlTokenize? tx = some ([⟨.text, tx, []⟩], []) := by
-  have hl : 0 < tx.length := List.length_pos_iff.mpr hne
-  have hn : next (Tokenizer.new tx.toArray) =
-      { Tokenizer.new tx.toArray with rawE := tx.length, err := true, dataE := tx.length, token := .text } := by
-    have hml := mainLoop_eof tx (Tokenizer.new tx.toArray) h60
-      (fun i hi => by simp [Tokenizer.new]) (by simp [Tokenizer.new]) rfl
-    have : next (Tokenizer.new tx.toArray) = mainLoop (Tokenizer.new tx.toArray) := by
-      simp [next, nextGo, Tokenizer.new]
-    rw [this, hml]
-    unfold finishText
-    simp [Tokenizer.new, hl]
-  have inv1 : Inv (next (Tokenizer.new tx.toArray)) := next_inv' _ (inv_new _)
-  have hstep1 : tgStep (Tokenizer.new tx.toArray) = .tok ⟨.text, tx, []⟩ (next (Tokenizer.new tx.toArray)) := by
-    unfold tgStep
-    simp only
-    rw [raw_eq _ inv1]
-    have hraw : rawL (next (Tokenizer.new tx.toArray)) = tx := by
-      rw [hn]; simp [rawL, Tokenizer.new]
-    rw [hraw, hn]
-    simp [Tokenizer.new, Tokenizer.isTagLike, kindOf]
-  have hstep2 : tgStep (next (Tokenizer.new tx.toArray)) = .stop [] := by
-    have hnn : next (next (Tokenizer.new tx.toArray)) =
-        ({ Tokenizer.new tx.toArray with
-            rawS := tx.length
-            rawE := tx.length
-            err := true
-            dataS := tx.length
-            dataE := tx.length
-            token := .error } : Tokenizer) := by
-      rw [hn]
-      simp [next, nextGo, Tokenizer.new]
-    have inv2 : Inv (next (next (Tokenizer.new tx.toArray))) := next_inv' _ inv1
-    unfold tgStep
-    simp only
-    rw [raw_eq _ inv2, buffered_eq _ inv2]
-    have h1 : rawL (next (next (Tokenizer.new tx.toArray))) = [] := by rw [hnn]; simp [rawL, Tokenizer.new]
-    have h2 : restL (next (next (Tokenizer.new tx.toArray))) = [] := by rw [hnn]; simp [restL, Tokenizer.new]
-    rw [h1, h2, hnn]
-    simp [Tokenizer.new]
-  unfold htmlTokenize?
-  have efuel : tx.length + 2 = (tx.length + 1) + 1 := rfl
-  rw [efuel, tokenizeGo_succ, hstep1]
-  simp only
-  rw [tokenizeGo_succ, hstep2]
-  rfl
-
 /-! ### the `Simple` grammar, parametrised by the closed-form laws of the readers -/
 
 /-- lower-cased tag name as the tokenizer computes it -/
@@ -168,11 +91,15 @@ theorem other_contains {x : Bytes} (h : L.OtherOK x) : x.contains 60 = true := b
   obtain ⟨c, rest, rfl, _⟩ := (L.other_closed x h).2
   simp
 
+section
+variable {P : Bytes → List Tok → Bytes → Prop} (hP : TokLaws P)
+include hP
+
 mutual
   theorem SimpleN_tok : ∀ (n : Node), SimpleN L n →
-      ∀ (y : Bytes) (ts' : List Tok) (r : Bytes), htmlTokenize? y = some (ts', r) →
+      ∀ (y : Bytes) (ts' : List Tok) (r : Bytes), P y ts' r →
         (isTextB n = true → StartsOpener y ∨ y = []) →
-        htmlTokenize? (serialize n ++ y) = some (tokensOf vtU n ++ ts', r) ∧
+        P (serialize n ++ y) (tokensOf vtU n ++ ts') r ∧
         (isTextB n = false → StartsOpener (serialize n))
     | .verb raw m, h, y, ts', r, hy, hop => by
       unfold SimpleN at h
@@ -192,17 +119,15 @@ mutual
         simp only [serialize]
         rcases hop (by simp [isTextB, hmem]) with hso | hnil
         · obtain ⟨c, rest, hy0, hc⟩ := hso
-          simpa using htmlTokenize?_text hne h60' hy0 hc hy
+          simpa using hP.text hne h60' hy0 hc hy
         · subst hnil
-          rw [htmlTokenize?_nil] at hy
-          simp only [Option.some.injEq, Prod.mk.injEq] at hy
-          obtain ⟨rfl, rfl⟩ := hy
-          simpa using htmlTokenize?_text_eof hne h60'
+          obtain ⟨rfl, rfl⟩ := hP.nil_inv hy
+          simpa using hP.text_eof hne h60'
       · obtain ⟨hc, hso⟩ := L.other_closed raw ho
         have hcont := other_contains L ho
         have hmem : 60 ∈ raw := by simpa using hcont
         refine ⟨?_, fun _ => by simpa [serialize] using hso⟩
-        have := htmlTokenize?_append hc hy
+        have := hP.append hc hy
         have htok : tokensOf vtU (Node.verb raw m) = [⟨.other, raw, []⟩] := by
           simp [tokensOf, vtU, hmem]
         rw [htok]
@@ -216,7 +141,7 @@ mutual
         simp only at h
         obtain ⟨hc, hso⟩ := L.raw_closed d a _ h
         refine ⟨?_, fun _ => ?_⟩
-        · have := htmlTokenize?_append hc hy
+        · have := hP.append hc hy
           simp only [serialize, tokensOf]
           simp only [startTok, endTok] at this ⊢
           simpa [List.append_assoc] using this
@@ -226,23 +151,23 @@ mutual
         simp only at h
         obtain ⟨hc, hso⟩ := L.start_closed d a h
         refine ⟨?_, fun _ => by simpa [serialize, startTok] using hso⟩
-        have := htmlTokenize?_append hc hy
+        have := hP.append hc hy
         simpa [serialize, tokensOf, startTok] using this
       | selfClosing =>
         simp only at h
         obtain ⟨hc, hso⟩ := L.self_closed d a h
         refine ⟨?_, fun _ => by simpa [serialize, selfTok] using hso⟩
-        have := htmlTokenize?_append hc hy
+        have := hP.append hc hy
         simpa [serialize, tokensOf, selfTok] using this
       | normal =>
         simp only at h
         obtain ⟨hs, he, hcs⟩ := h
         obtain ⟨hcS, hoS⟩ := L.start_closed d a hs
         have hcE := L.end_closed d he
-        have h1 := htmlTokenize?_append hcE hy
+        have h1 := hP.append hcE hy
         have h2 := SimpleL_tok cs hcs ((endTok (lowerName d) d).raw ++ y) _ r h1
           (fun _ => Or.inl (startsOpener_append (startsOpener_endTok _ d) y))
-        have h3 := htmlTokenize?_append hcS h2
+        have h3 := hP.append hcS h2
         refine ⟨?_, fun _ => ?_⟩
         · simp only [serialize, tokensOf]
           simp only [startTok, endTok] at h3 ⊢
@@ -250,9 +175,9 @@ mutual
         · have := startsOpener_append hoS (serializeList cs ++ (endTok (lowerName d) d).raw)
           simpa [serialize, startTok, endTok, List.append_assoc] using this
   theorem SimpleL_tok : ∀ (ns : List Node), SimpleL L ns →
-      ∀ (y : Bytes) (ts' : List Tok) (r : Bytes), htmlTokenize? y = some (ts', r) →
+      ∀ (y : Bytes) (ts' : List Tok) (r : Bytes), P y ts' r →
         (lastIsText ns = true → StartsOpener y ∨ y = []) →
-        htmlTokenize? (serializeList ns ++ y) = some (tokensOfList vtU ns ++ ts', r)
+        P (serializeList ns ++ y) (tokensOfList vtU ns ++ ts') r
     | [], _, y, ts', r, hy, _ => by simpa [serializeList, tokensOfList] using hy
     | [n], h, y, ts', r, hy, hop => by
       unfold SimpleL at h
@@ -271,20 +196,30 @@ mutual
           | false => rfl
           | true => exact absurd ⟨hv, hb⟩ hadj
         have hmS : SimpleN L m := by unfold SimpleL at hrest; exact hrest.1
-        have := (SimpleN_tok m hmS [] [] [] htmlTokenize?_nil (fun hv' => by rw [hm] at hv'; cases hv')).2 hm
+        have := (SimpleN_tok m hmS [] [] [] hP.nil (fun hv' => by rw [hm] at hv'; cases hv')).2 hm
         exact Or.inl (by
           simpa [serializeList, List.append_assoc] using startsOpener_append this (serializeList rest ++ y))
       have := (SimpleN_tok n hn _ _ r ih hfollow).1
       simpa [serializeList, tokensOfList, List.append_assoc] using this
 end
 
+end
+
 /-- **`tokenize (serialize d) = tokensOf d` for every `Simple` document** — text (also at the very end), comments,
 declarations, ordinary and raw-text elements, any names and attribute texts the laws cover, any shape and size. -/
 theorem tokenize_serialize_of_laws (doc : List Node) (hs : SimpleL L doc) :
     htmlTokenize (serializeList doc) = (tokensOfList vtU doc, []) := by
-  have := SimpleL_tok L doc hs [] [] [] htmlTokenize?_nil (fun _ => Or.inr rfl)
-  simp only [List.append_nil] at this
-  simp [htmlTokenize, this]
+  have := SimpleL_tok L plainLaws doc hs [] [] [] plainLaws.nil (fun _ => Or.inr rfl)
+  simp only [List.append_nil, PlainTo] at this
+  simp [htmlTokenize_apply, this]
+
+/-- **the same for the stream tokenizer `filter` runs since fe7eac6** (`new_fragment(data, "")`): the same tokens,
+nothing left, and no token is cut short by the end of the document in the sense of `filter` (a final text is ended by
+the end of the data, but plain text is not held back) -/
+theorem stream_serialize_of_laws (doc : List Node) (hs : SimpleL L doc) :
+    StreamTo (serializeList doc) (tokensOfList vtU doc) [] := by
+  have := SimpleL_tok L streamLaws doc hs [] [] [] streamLaws.nil (fun _ => Or.inr rfl)
+  simpa only [List.append_nil] using this
 
 mutual
   theorem SimpleN_noLt : ∀ (n : Node), SimpleN L n →
@@ -347,7 +282,8 @@ end
 theorem tokAgree_of_laws (doc : List Node) (hs : SimpleL L doc)
     (hu : utf8Split (serializeList doc) = some (serializeList doc, [])) :
     TokAgree htmlTokenize vtU doc :=
-  ⟨tokenize_serialize_of_laws L doc hs, hu, splitHeld_of_noLt ⟨[], [], []⟩ rfl (SimpleL_noLt L doc hs)⟩
+  have h := streamTo_stream (stream_serialize_of_laws L doc hs)
+  ⟨h.1, h.2.1, h.2.2, hu, splitHeld_of_noLt ⟨[], [], []⟩ rfl (SimpleL_noLt L doc hs)⟩
 
 end
 
